@@ -106,10 +106,18 @@ Inductive ckind :=
 | KConstObj     (* const function object, variable *)
 | KLambdaVar.   (* lambda stored in a variable, streamed as an lvalue *)
 
+(* ways to make the std::stringstream of a statement fail (none of them writes anything).  After it every formatted
+   insertion of the std::ostream is a no-op (its sentry fails), str() keeps the text written before. *)
+Inductive fkind :=
+| FNullCStr        (* s << (const char* )nullptr          -> badbit *)
+| FNullStreambuf   (* s << (std::streambuf* )nullptr      -> badbit *)
+| FUserFailbit.    (* a user operator<<(std::ostream&, X) that calls setstate(failbit) *)
+
 Inductive item :=
 | IStr (s : str)                  (* s.sstr() << std::string *)
 | INum (z : Z)                    (* s.sstr() << long long *)
-| ICall (k : ckind) (id : nat) (ret : str).   (* a callable of shape k; `id` names it, `ret` is what it returns *)
+| ICall (k : ckind) (id : nat) (ret : str)    (* a callable of shape k; `id` names it, `ret` is what it returns *)
+| IFail (k : fkind).                          (* an insertion that puts the statement's std::stringstream into fail()/bad() *)
 
 (* decimal rendering of an integer by std::ostream (modelled, tied by correspondence only) *)
 Definition digit (d : N) : byte :=
@@ -134,7 +142,8 @@ Definition dec_of_Z (z : Z) : str :=
 
 (* the text an item contributes to the stringstream *)
 Definition item_text (it : item) : str :=
-  match it with IStr s => s | INum z => dec_of_Z z | ICall _ _ ret => ret end.
+  match it with IStr s => s | INum z => dec_of_Z z | ICall _ _ ret => ret | IFail _ => [] end.
+Definition is_fail (it : item) : bool := match it with IFail _ => true | _ => false end.
 
 (* ---------------------------------------------------------------- observable events *)
 
@@ -203,7 +212,8 @@ Definition log_record (cfg : config) (lg : logger) (s : sev) (r : record) : list
 (* ---------------------------------------------------------------- stream.hpp: the stream objects *)
 
 (* smart_stream: std::unique_ptr<Record> r; std::unique_ptr<std::stringstream> s *)
-Record sstream := mkSS { ss_r : option record; ss_s : option str }.
+(* ss_bad: the error state (fail() || bad()) of the stringstream *s; it belongs to the stringstream and moves with it *)
+Record sstream := mkSS { ss_r : option record; ss_s : option str; ss_bad : bool }.
 
 (* smart_stream(string_ref tag) *)
 Definition ss_construct (th : thresholds) (lg : logger) (sv : sev) (tag : option str) : sstream :=
@@ -212,21 +222,21 @@ Definition ss_construct (th : thresholds) (lg : logger) (sv : sev) (tag : option
   let r0 := if lg_tagged lg then set_tag new_record tag else new_record in
   let r := set_severity r0 sv in
   if filt (th (lg_rec lg)) (lg_filter lg) r         (* logger::will_log( *r ): the filters of THIS record type *)
-  then mkSS (Some r) (Some [])                      (* s.reset(new std::stringstream()) *)
-  else mkSS None None.                              (* r.reset() *)
+  then mkSS (Some r) (Some []) false                (* s.reset(new std::stringstream()) *)
+  else mkSS None None false.                        (* r.reset() *)
 
 (* smart_stream(smart_stream&& ss) : r(std::move(ss.r)), s(std::move(ss.s)) — returns (new, source afterwards) *)
 Definition ss_move (src : sstream) : sstream * sstream :=
-  (mkSS (ss_r src) (ss_s src), mkSS None None).
+  (mkSS (ss_r src) (ss_s src) (ss_bad src), mkSS None None false).
 
-(* all four operator<< overloads on smart_stream: if (s) { s.sstr() << t  resp.  s.sstr() << t(); } *)
+(* all four operator<< overloads on smart_stream: if (s) { s.sstr() << t  resp.  s.sstr() << t(); }
+   `if (s)` asks only whether the buffer EXISTS (operator bool is static_cast<bool>(s)), not whether it is healthy: a callable
+   is called even when the stringstream has failed; the std::ostream then drops the text. *)
 Definition ss_put (x : sstream) (it : item) : sstream * list event :=
   match ss_s x with
   | Some b =>
-      match it with
-      | ICall _ id ret => (mkSS (ss_r x) (Some (b ++ ret)), [Call id])
-      | _ => (mkSS (ss_r x) (Some (b ++ item_text it)), [])
-      end
+      (mkSS (ss_r x) (Some (b ++ (if ss_bad x then [] else item_text it))) (ss_bad x || is_fail it),
+       match it with ICall _ id _ => [Call id] | _ => [] end)
   | None => (x, [])
   end.
 
@@ -306,9 +316,30 @@ Definition init_world : world := mkWorld init_thresholds (fun _ => None).
 Definition set_slot (sl : nat -> option slot) (v : nat) (x : option slot) : nat -> option slot :=
   fun j => if j =? v then x else sl j.
 
+(* where in the program a whole statement is executed.  The model IGNORES it: a statement is a statement. *)
+Inductive sctx :=
+| CNormal       (* straight-line code *)
+| CUnwinding    (* inside a destructor that runs while an exception propagates (a scope guard logging during stack unwinding) *)
+| CCatch        (* inside a catch handler *)
+| CDtor.        (* inside a destructor on normal scope exit *)
+
+Fixpoint stream_puts (st : stream) (its : list item) : stream * list event :=
+  match its with
+  | [] => (st, [])
+  | it :: rest => let '(st1, ev) := stream_put st it in
+                  let '(st2, ev') := stream_puts st1 rest in (st2, ev ++ ev')
+  end.
+
+(* form 2 with a local variable:  { auto s = L::sv(tag); s << i1; …; s << ik; } *)
+Definition exec_named (cfg : config) (th : thresholds) (lg : logger) (sv : sev) (tag : option str)
+           (its : list item) : list event :=
+  let '(st, ev) := stream_puts (make_stream cfg th lg sv tag) its in
+  ev ++ stream_destroy cfg lg sv st.
+
 Inductive op :=
 | OSet (rc k : nat) (s : sev)                                          (* severity_filter<Record rc, k>::set_severity(s) *)
-| OOne (lg : logger) (sv : sev) (tag : option str) (its : list item)   (* L::sv(tag) << its…; *)
+| OOne (c : sctx) (lg : logger) (sv : sev) (tag : option str) (its : list item)     (* L::sv(tag) << its…;   executed in context c *)
+| ONamed (c : sctx) (lg : logger) (sv : sev) (tag : option str) (its : list item)   (* { auto s = L::sv(tag); s << its…; }  in context c *)
 | OOpen (v : nat) (lg : logger) (sv : sev) (tag : option str)          (* auto v = L::sv(tag); *)
 | OPut (v : nat) (it : item)                                           (* v << it; *)
 | OClose (v : nat).                                                    (* v goes out of scope *)
@@ -324,7 +355,8 @@ Definition close_slot (cfg : config) (w : world) (v : nat) : world * list event 
 Definition exec_op (cfg : config) (w : world) (o : op) : world * list event :=
   match o with
   | OSet rc k s => (mkWorld (set_threshold (w_th w) rc k s) (w_slots w), [])
-  | OOne lg sv tag its => (w, exec_one cfg (w_th w) lg sv tag its)
+  | OOne _ lg sv tag its => (w, exec_one cfg (w_th w) lg sv tag its)
+  | ONamed _ lg sv tag its => (w, exec_named cfg (w_th w) lg sv tag its)
   | OOpen v lg sv tag =>
       (* harness convention: a slot that is still occupied is closed first *)
       let '(w1, ev) := close_slot cfg w v in
